@@ -13,6 +13,12 @@ SCEN = [
     ('eacc', 'hmap', 'id', ['ins:3,erasea:3,ins:3,erasear:3', 'ins:4,ins:5,ins:6,count:3,ins:8', 'ins:7,find:3,ins:9,count:3']),
     ('eacc2', 'hmap', 'id', ['ins:2,ins:6,erasea:6,erasear:2', 'ins:1,ins:3,ins:4,ins:5,count:6,count:2', 'ins:8,ins:9,ins:10,find:6,find:2']),
     ('eacc3', 'hmap', 'low', ['ins:2,erasea:2', 'erasear:2,ins:2', 'ins:4,ins:6,ins:8,count:2']),
+    # lazy rehash of a child bucket from its parent racing an erase in the parent chain.  The table jumps from 2 to 256 buckets at the first insert, so a parent chain of several
+    # keys exists only at the next doubling (256 -> 512): 251 filler keys + the chain [5, 517, 261, 773] of bucket 5 (5 and 517 stay, 261 and 773 move to bucket 261) + one more
+    # insert that makes the table grow; after the barrier one thread touches the child bucket (rehash_bucket walks the parent chain as a reader and upgrades at 261) while another
+    # erases 517, the predecessor of the node being moved
+    ('rehash1', 'hmap', 'id', ['fill:1030,ins:773,ins:261,ins:517,ins:5,ins:1281,bar,find:261,find:773,count:5', 'bar,erase:517,find:773,find:261', 'bar,find:773,find:5,count:517,find:261']),
+    ('rehash2', 'hmap', 'id', ['fill:1030,ins:773,ins:261,ins:517,ins:5,ins:1281,bar,count:773,erase:261,find:5', 'bar,erase:517,count:5,find:773', 'bar,erase:5,find:261,find:773,count:517']),
     ('locks', 'hmap', 'low', ['insw:4,findw:4', 'findr:4,findr:4', 'findw:4,erase:4', 'findr:4,ins:4']),
 ]
 
@@ -21,4 +27,5 @@ def run(res, tier, seed):
     thorough = tier != 'quick'
     vlib.model_check(res, contlib.SD, 'MCHashMapRehash', 'HashMapRehash_PA.cfg')
     vlib.model_check(res, contlib.SD, 'MCHashMapRehash', 'HashMapRehash_PB.cfg')
-    contlib.run_scenarios(res, 'C10', 'TraceMap', SCEN, 400 if not thorough else 6000, seed, 'concurrent_hash_map')
+    contlib.run_scenarios(res, 'C10', 'TraceMap', [x for x in SCEN if not x[0].startswith('rehash')], 400 if not thorough else 6000, seed, 'concurrent_hash_map')
+    contlib.run_scenarios(res, 'C10', 'TraceMap', [x for x in SCEN if x[0].startswith('rehash')], 60 if not thorough else 800, seed, 'concurrent_hash_map')     # (260 inserts per run)
